@@ -37,7 +37,7 @@ DesignOK ==
      \* a chunk is mapped to its own position unless it is a lone line break
      /\ \A i \in 1..Len(cn.ev) :
           cn.ev[i].o = IF cn.ev[i].x[1] = <<NL>> THEN <<>>
-                       ELSE <<Self(cn.ev[i].gl, cn.ev[i].gc)>>
+                       ELSE Self(cn.ev[i].gl, cn.ev[i].gc)
      \* chunks begin exactly at the statement starts of the documented rule
      /\ {off[i] + 1 : i \in {i \in 1..Len(cn.ev) : cn.ev[i].o # <<>>}} = StatementStarts(t)
      \* the final-source streams: same events, no text, unmapped ones dropped
@@ -46,7 +46,7 @@ DesignOK ==
      /\ rf.ev = <<>> /\ rf.end = rn.end
      \* lines mode: one mapped chunk per line, raw: one unmapped chunk per line
      /\ [i \in 1..Len(ln.ev) |-> ln.ev[i].x[1]] = Lines(t)
-     /\ \A i \in 1..Len(ln.ev) : ln.ev[i].o = <<Self(i, 0)>>
+     /\ \A i \in 1..Len(ln.ev) : ln.ev[i].o = Self(i, 0)
      /\ [i \in 1..Len(rn.ev) |-> rn.ev[i].x[1]] = Lines(t)
      /\ \A i \in 1..Len(rn.ev) : rn.ev[i].o = <<>>
 =============================================================================
